@@ -163,6 +163,8 @@ def run(prop, a, seed, t0, tmp):
     else:
         tier = a.tier
         jobs = expand(prop, tier, seed)
+        if os.environ.get('ZMON_ONLY_CFG'):      # development aid: run the jobs of some configurations only
+            jobs = [j for j in jobs if j.get('cfgname') in os.environ['ZMON_ONLY_CFG'].split(',')]
     kinds = sorted({j.get('build', 'opt') for j in jobs if j['mode'] == 'c'})
     sos, build_err = {}, None
     for k in kinds:
